@@ -89,6 +89,34 @@ def rule_layout(ctx, tu, I, py):
     ctx.floor(R, 75)      # coverage guard: merged duplicate subscripts lower the count without losing a table
 
 
+def two_phase_calls(body, first, second):
+    """(ok, explanation): in `body` the member functions `first` and `second` are each called exactly once, outside every loop,
+    `first` before `second` -- the whole first pass is finished before the second one starts"""
+    sites = []
+
+    def rec(n, depth):
+        if n is None:
+            return
+        k = n.get("kind")
+        if k == "CXXMemberCallExpr":
+            cp = call_parts(n)
+            if cp and cp[0] in (first, second):
+                sites.append((cp[0], depth))
+        d2 = depth + (1 if k in ("ForStmt", "WhileStmt", "DoStmt", "CXXForRangeStmt") else 0)
+        for c in n.get("inner", []) or []:
+            if c:
+                rec(c, d2)
+    rec(body, 0)
+    names = [s_[0] for s_ in sites]
+    if names.count(first) != 1 or names.count(second) != 1:
+        return False, "%s is called %d times and %s %d times" % (first, names.count(first), second, names.count(second))
+    if any(d for _, d in sites):
+        return False, "the two passes are called inside a loop (interleaved over parts of the system)"
+    if names.index(first) > names.index(second):
+        return False, "%s is called after %s" % (first, second)
+    return True, ""
+
+
 def rule_phase(ctx, tu, eff, R="C01.PHASE"):
     for cn in ("Euler3D", "EulerGraph"):
         c = tu.classes[cn]
@@ -114,9 +142,9 @@ def rule_phase(ctx, tu, eff, R="C01.PHASE"):
                   "with the identical index", "the Euler update is not x[I] += dxdt[I]*dt at one index")
         it = c.methods["Iterate"]
         calls = [call_parts(x)[0] for x in walk(it.body) if x.get("kind") == "CXXMemberCallExpr"]
-        ctx.check("Compute_dxdt" in calls and "Apply_dxdt" in calls and calls.index("Compute_dxdt") < calls.index("Apply_dxdt"),
-                  R, it.node, it.qual, "Compute_dxdt before Apply_dxdt", "all derivatives first, then the update",
-                  "Iterate does not run the whole derivative pass before the update pass (calls: %s)" % calls)
+        ok2, why2 = two_phase_calls(it.body, "Compute_dxdt", "Apply_dxdt")
+        ctx.check(ok2, R, it.node, it.qual, "Compute_dxdt before Apply_dxdt", "all derivatives first, then the update",
+                  "Iterate does not run the whole derivative pass before the update pass (%s)" % (why2 or calls))
         # the derivative: reactions  += sto[s,r] * rate(i,r) ; diffusion  -= flux difference(i,s,n)
         ds = upd.summaries(comp, {"mesh_dxdt"})
         kinds = sorted((u.op, (call_parts(u.rhs) or ("",))[0] if u.rhs is not None and call_parts(u.rhs) else
